@@ -110,16 +110,16 @@ Section Proofs.
   Notation tmpl := (tmpl code).
   Notation world := (world code).
   Notation nkey := (nkey scope_of).
-  Notation pf_violation := (pf_violation scope_of).
+  Notation pf_violation := (pf_violation scope_of ns_escalation).
   Notation cache_get := (cache_get scope_of).
-  Notation get_source := (@get_source code scope_of).
-  Notation get_values := (@get_values code scope_of).
-  Notation template_object := (template_object render scope_of).
-  Notation reconcile_tmpl := (reconcile_tmpl render scope_of iv_res iv_opt).
-  Notation pass := (pass render scope_of iv_res iv_opt).
-  Notation do_step := (do_step render scope_of iv_res iv_opt).
-  Notation run := (run render scope_of iv_res iv_opt).
-  Notation final := (final render scope_of iv_res iv_opt).
+  Notation get_source := (@get_source code scope_of ns_escalation).
+  Notation get_values := (@get_values code scope_of ns_escalation).
+  Notation template_object := (template_object render scope_of ns_escalation).
+  Notation reconcile_tmpl := (reconcile_tmpl render scope_of ns_escalation iv_res iv_opt).
+  Notation pass := (pass render scope_of ns_escalation iv_res iv_opt).
+  Notation do_step := (do_step render scope_of ns_escalation iv_res iv_opt).
+  Notation run := (run render scope_of ns_escalation iv_res iv_opt).
+  Notation final := (final render scope_of ns_escalation iv_res iv_opt).
   Notation scan := (scan scope_of).
   Notation src_bad := (src_bad scope_of).
   Notation tgt_bad := (tgt_bad scope_of).
@@ -135,12 +135,11 @@ Section Proofs.
   (** The admission check the implementation applies to a source reference. *)
   Definition pfbad (tns : N) (s : source) : bool := pf_violation tns (s_kind s, s_ns s, s_name s) false.
 
-  (** ** The implementation's check against the property's notion of "outside the namespace" *)
+  (** ** The implementation's check IS the property's notion of "outside the namespace" (since aa47ee3) *)
 
-  Lemma bad_pf tns k orefs : tgt_bad tns k orefs = pf_violation tns k orefs || rootown tns k.
+  Lemma bad_pf tns k orefs : tgt_bad tns k orefs = pf_violation tns k orefs.
   Proof.
-    unfold Template.tgt_bad, Template.pf_violation, Template.oob, Template.malformed, Template.rootown,
-      is_namespaced, is_cluster.
+    unfold Template.tgt_bad, Template.pf_violation, Template.oob, Template.malformed, ns_escalation, is_namespaced.
     destruct (scope_of (k_kind k)) as [[|]|]; destruct orefs; cbn; try reflexivity;
       destruct (tns =? 0) eqn:E0; cbn; try reflexivity;
       destruct (k_ns k =? 0) eqn:E1; cbn; try reflexivity;
@@ -148,19 +147,10 @@ Section Proofs.
     all: apply N.eqb_eq in E1, E2; apply N.eqb_neq in E0; congruence.
   Qed.
 
-  Lemma src_bad_pf tns s : src_bad tns s = pfbad tns s || src_rootown tns s.
+  Lemma src_bad_pf tns s : src_bad tns s = pfbad tns s.
   Proof.
     pose proof (bad_pf tns (s_kind s, s_ns s, s_name s) false) as H.
     unfold Template.tgt_bad in H. cbn [orb] in H. exact H.
-  Qed.
-
-  Lemma pf_rootown_excl tns k : rootown tns k = true -> pf_violation tns k false = false.
-  Proof.
-    unfold Template.rootown, Template.pf_violation, is_cluster. intros H.
-    apply andb_true_iff in H. destruct H as [H H2]. apply andb_true_iff in H. destruct H as [H0 H1].
-    destruct (scope_of (k_kind k)) as [[|]|]; try discriminate. cbn.
-    apply negb_true_iff in H0. rewrite H0. apply N.eqb_eq in H2. apply N.eqb_neq in H0.
-    destruct (k_ns k =? 0) eqn:E; cbn; [apply N.eqb_eq in E; congruence|]. rewrite H2, N.eqb_refl. reflexivity.
   Qed.
 
   Lemma nkey_kind k : k_kind (nkey k) = k_kind k.
@@ -189,7 +179,7 @@ Section Proofs.
   (** ** Stores that differ only by cache labels gained *)
   Definition store_le (a b : store) : Prop :=
     forall k, match lookup k a, lookup k b with
-              | Some x, Some y => o_data x = o_data y /\ (o_label x = true -> o_label y = true)
+              | Some x, Some y => o_data x = o_data y /\ o_conds x = o_conds y /\ (o_label x = true -> o_label y = true)
               | None, None => True
               | _, _ => False
               end.
@@ -199,7 +189,7 @@ Section Proofs.
   Proof.
     intros H1 H2 k. specialize (H1 k). specialize (H2 k).
     destruct (lookup k a), (lookup k b), (lookup k c); try tauto.
-    destruct H1 as [E1 L1], H2 as [E2 L2]. split; [congruence|auto].
+    destruct H1 as (E1 & C1 & L1), H2 as (E2 & C2 & L2). split; [congruence|split; [congruence|auto]].
   Qed.
   Lemma store_le_label k o st : lookup k st = Some o -> store_le st (upsert k (set_label o) st).
   Proof.
@@ -211,7 +201,7 @@ Section Proofs.
   Lemma copy_items_data items o o' cfg : o_data o = o_data o' -> copy_items items o cfg = copy_items items o' cfg.
   Proof.
     intros E. revert cfg. induction items as [|[k d] r IH]; intros cfg; cbn; [reflexivity|].
-    rewrite E. destruct (dlookup k (o_data o')); auto.
+    rewrite E. destruct (dlookup k (o_data o')); auto. destruct (d =? 0); auto.
   Qed.
 
   Lemma scan_store_le bad a b tns srcs : store_le a b -> forall cfg retry, scan bad a tns srcs cfg retry = scan bad b tns srcs cfg retry.
@@ -269,8 +259,7 @@ Section Proofs.
 
   (** ** getValuesFromSources against the pure collection [scan] *)
   Definition src_event (tns : N) (srcs : list source) (e : ev) : Prop :=
-    (exists kd, e = EWatch kd) \/
-    (exists s, In s srcs /\ pfbad tns s = false /\ e = EPatchLabel (nkey (src_key tns s))).
+    exists s, In s srcs /\ pfbad tns s = false /\ (e = EWatch (s_kind s) \/ e = EPatchLabel (nkey (src_key tns s))).
 
   Definition tracked (tns : N) (w : world) (s : source) : Prop :=
     watched (s_kind s) me (w_watch w) = true /\
@@ -284,7 +273,7 @@ Section Proofs.
   Qed.
 
   Lemma src_event_mono tns s srcs e : src_event tns srcs e -> src_event tns (s :: srcs) e.
-  Proof. intros [H|(s' & Hin & Hb & He)]; [now left|right; exists s'; repeat split; auto; now right]. Qed.
+  Proof. intros (s' & Hin & Hb & He). exists s'; repeat split; auto; now right. Qed.
 
   Lemma get_values_spec tns srcs : forall w cfg retry w' evs r,
     get_values w tns srcs cfg retry = (w', evs, r) ->
@@ -306,9 +295,9 @@ Section Proofs.
       { intros Hb. rewrite Hb in Hcase. destruct Hcase as [_ Hc].
         destruct (lookup (nkey (src_key tns s)) (w_store w)).
         - destruct Hc as (o' & _ & _ & _ & _ & [-> | ->]); split; try discriminate.
-          + constructor; [left; eauto|constructor].
-          + constructor; [left; eauto|]. constructor; [|constructor]. right. exists s. repeat split; auto. now left.
-        - destruct Hc as (-> & _). split; auto. constructor; [left; eauto|constructor]. }
+          + constructor; [exists s; repeat split; auto; now left|constructor].
+          + constructor; [exists s; repeat split; auto; now left|]. constructor; [|constructor]. exists s. repeat split; auto. now left.
+        - destruct Hc as (-> & _). split; auto. constructor; [exists s; repeat split; auto; now left|constructor]. }
       cbn [Template.scan]. destruct (pfbad tns s) eqn:Eb.
       + destruct Hcase as (-> & -> & ->). injection H as <- <- <-. repeat split; auto using store_le_refl; try (intros kd o Hw'; exact Hw').
       + destruct (Hev1 eq_refl) as [Hev _]. destruct Hcase as [Hwat Hc].
@@ -382,20 +371,27 @@ Section Proofs.
       cache_get (w_store w1) k = None -> create_res (w_store w1) k = r -> r <> WOk ->
       rec_out w t w1 e1 (with_watch w1 (add_watch (k_kind k) me (w_watch w1)))
         (e1 ++ [EWatch (k_kind k); ECreate k body r]) t (rq_of retry) 2
-  | RO_update cfg retry k body ex :
+  | RO_conds_fail cfg retry k body ex :
       scan (pfbad (t_ns t)) (w_store w) (t_ns t) (t_sources t) [] false = ScOk cfg retry ->
       Forall (tracked (t_ns t) w1) (t_sources t) ->
       template_object t cfg (w_env w) = TObj k body ->
-      cache_get (w_store w1) k = Some ex -> update_res k = WOk ->
+      cache_get (w_store w1) k = Some ex -> copy_conds t ex = None ->
+      rec_out w t w1 e1 (with_watch w1 (add_watch (k_kind k) me (w_watch w1)))
+        (e1 ++ [EWatch (k_kind k)]) t (rq_of retry) 4
+  | RO_update cfg retry k body ex cs :
+      scan (pfbad (t_ns t)) (w_store w) (t_ns t) (t_sources t) [] false = ScOk cfg retry ->
+      Forall (tracked (t_ns t) w1) (t_sources t) ->
+      template_object t cfg (w_env w) = TObj k body ->
+      cache_get (w_store w1) k = Some ex -> copy_conds t ex = Some cs -> update_res k = WOk ->
       rec_out w t w1 e1
         (with_store (with_watch w1 (add_watch (k_kind k) me (w_watch w1))) (upsert (nkey k) (updated_target ex body) (w_store w1)))
         (e1 ++ [EWatch (k_kind k); EUpdate k body WOk])
-        (set_invalid (set_ctrlof (set_conds t (copy_conds t ex)) (Some k)) 0) (rq_of retry) 0
-  | RO_update_fail cfg retry k body ex r :
+        (set_invalid (set_ctrlof (set_conds t cs) (Some k)) 0) (rq_of retry) 0
+  | RO_update_fail cfg retry k body ex cs r :
       scan (pfbad (t_ns t)) (w_store w) (t_ns t) (t_sources t) [] false = ScOk cfg retry ->
       Forall (tracked (t_ns t) w1) (t_sources t) ->
       template_object t cfg (w_env w) = TObj k body ->
-      cache_get (w_store w1) k = Some ex -> update_res k = r -> r <> WOk ->
+      cache_get (w_store w1) k = Some ex -> copy_conds t ex = Some cs -> update_res k = r -> r <> WOk ->
       rec_out w t w1 e1 (with_watch w1 (add_watch (k_kind k) me (w_watch w1)))
         (e1 ++ [EWatch (k_kind k); EUpdate k body r]) t (rq_of retry) 3.
 
@@ -427,8 +423,10 @@ Section Proofs.
       + injection H as <- <- <- <- <-. eapply RO_yamlerr; eauto.
       + injection H as <- <- <- <- <-. eapply RO_tgterr; eauto.
       + cbn [w_store with_watch] in H. destruct (cache_get (w_store w1) k) as [ex|] eqn:Ec.
-        * destruct (update_res k) eqn:Eu; injection H as <- <- <- <- <-;
-            solve [eapply RO_update; eauto | eapply RO_update_fail; eauto; rewrite ?Eu; discriminate].
+        * destruct (copy_conds t ex) as [cs|] eqn:Ecc.
+          -- destruct (update_res k) eqn:Eu; injection H as <- <- <- <- <-;
+               solve [eapply RO_update; eauto | eapply RO_update_fail; eauto; rewrite ?Eu; discriminate].
+          -- injection H as <- <- <- <- <-. eapply RO_conds_fail; eauto.
         * destruct (create_res (w_store w1) k) eqn:Ecr; injection H as <- <- <- <- <-;
             solve [eapply RO_create; eauto | eapply RO_create_fail; eauto; rewrite ?Ecr; discriminate].
   Qed.
@@ -444,7 +442,7 @@ Section Proofs.
   Lemma src_events_no_writes tns srcs e1 : Forall (src_event tns srcs) e1 -> target_writes e1 = [].
   Proof.
     induction 1 as [|e l He _ IH]; [reflexivity|]. change (e :: l) with ([e] ++ l). rewrite target_writes_app, IH.
-    destruct He as [[kd ->]|(s & _ & _ & ->)]; reflexivity.
+    destruct He as (s & _ & _ & [-> | ->]); reflexivity.
   Qed.
 
   Lemma src_events_patches tns srcs e1 : Forall (src_event tns srcs) e1 ->
@@ -453,7 +451,20 @@ Section Proofs.
     induction 1 as [|e l He _ IH]; intros k Hin; [contradiction|].
     change (e :: l) with ([e] ++ l) in Hin. rewrite label_patches_app in Hin. apply in_app_or in Hin.
     destruct Hin as [Hin|Hin]; [|now apply IH].
-    destruct He as [[kd ->]|(s & Hs & Hb & ->)]; cbn in Hin; [contradiction|].
+    destruct He as (s & Hs & Hb & [-> | ->]); cbn in Hin; [contradiction|].
+    destruct Hin as [<-|[]]. eauto.
+  Qed.
+
+  Lemma watch_calls_app a b : watch_calls (a ++ b) = watch_calls a ++ watch_calls b.
+  Proof. unfold watch_calls. apply flat_map_app. Qed.
+
+  Lemma src_events_watches tns srcs e1 : Forall (src_event tns srcs) e1 ->
+    forall kd, In kd (watch_calls e1) -> exists s, In s srcs /\ pfbad tns s = false /\ kd = s_kind s.
+  Proof.
+    induction 1 as [|e l He _ IH]; intros kd Hin; [contradiction|].
+    change (e :: l) with ([e] ++ l) in Hin. rewrite watch_calls_app in Hin. apply in_app_or in Hin.
+    destruct Hin as [Hin|Hin]; [|now apply IH].
+    destruct He as (s & Hs & Hb & [-> | ->]); cbn in Hin; [|contradiction].
     destruct Hin as [<-|[]]. eauto.
   Qed.
 
@@ -555,10 +566,11 @@ Section Proofs.
            \/ (exists k body o, template_object t cfg (w_env w) = TObj k body /\ target_writes (p_evs r) = [(k, body)] /\ p_err r = 0 /\
                  (exists t', w_tmpl w' = Some t' /\ t_invalid t' = 0) /\
                  w_store w' = upsert k o st1 /\ o_data o = body /\ o_label o = true /\ watched (k_kind k) me (w_watch w') = true /\
-                 admitted k)
+                 admitted k /\ o_conds o = [] /\ o_sobs o = None)
            \/ (exists k body, template_object t cfg (w_env w) = TObj k body /\ target_writes (p_evs r) = [] /\
-                 (p_err r = 2 \/ p_err r = 3) /\ w_tmpl w' = Some t0 /\ w_store w' = st1 /\
-                 ((cache_get st1 k = None /\ create_res st1 k <> WOk) \/ (exists ex, cache_get st1 k = Some ex /\ update_res k <> WOk)))))).
+                 (p_err r = 2 \/ p_err r = 3 \/ p_err r = 4) /\ w_tmpl w' = Some t0 /\ w_store w' = st1 /\
+                 ((cache_get st1 k = None /\ create_res st1 k <> WOk) \/
+                  (exists ex, cache_get st1 k = Some ex /\ (update_res k <> WOk \/ copy_conds t0 ex = None))))))).
   Proof.
     intros Ht Hd H tns sc t0.
     destruct (pass_cases _ _ _ _ Ht Hd H) as (w1 & e1 & w2 & e2 & t2 & rq & err & Hsp & Hout & Hfin).
@@ -579,7 +591,8 @@ Section Proofs.
     pose proof (Hpatch [] eq_refl) as Hp0. pose proof (Hwr []) as Hw0. rewrite !app_nil_r in Hp0, Hw0. destruct Hw0 as [Hw0 Hw0'].
     destruct Hout as [Hsc | Hsc | cfg retry Hsc Htr Hto | cfg retry Hsc Htr Hto | cfg retry Hsc Htr Hto
                      | cfg retry k body Hsc Htr Hto Hcg Hcr | cfg retry k body wr Hsc Htr Hto Hcg Hcr Hne
-                     | cfg retry k body ex Hsc Htr Hto Hcg Hur | cfg retry k body ex wr Hsc Htr Hto Hcg Hur Hne];
+                     | cfg retry k body ex Hsc Htr Hto Hcg Hcc
+                     | cfg retry k body ex cs Hsc Htr Hto Hcg Hcc Hur | cfg retry k body ex cs wr Hsc Htr Hto Hcg Hcc Hur Hne];
       cbn [t_ns t_sources set_fin w_store w_env with_tmpl] in Hsc; fold tns in Hsc; fold sc in Hsc;
       try (cbn [t_ns t_sources set_fin w_store w_env with_tmpl] in Htr, Hto);
       (destruct Hfin as [(He0 & -> & ->)|(He0 & -> & ->)]; [|try congruence]); try congruence;
@@ -622,6 +635,17 @@ Section Proofs.
           destruct (Hwr [EWatch (k_kind k); ECreate k body wr]) as [_ ->]. repeat split; auto.
           -- destruct wr; try reflexivity. congruence.
           -- left. split; [assumption|congruence].
+    - (* malformed condition on the existing target *)
+      repeat split; auto.
+      + intros kd o Hw. apply watched_add_mono. auto.
+      + intros kd o Hne'. rewrite watched_add, (Hso kd o Hne'). apply N.eqb_neq in Hne'. rewrite (N.eqb_sym me o), Hne', andb_false_r, orb_false_r. reflexivity.
+      + intros k0 Hin. apply (Hpatch [EWatch (k_kind k)] eq_refl k0). now right.
+      + eauto.
+      + right. exists cfg, retry. split; [assumption|]. split; [reflexivity|]. split.
+        * eapply Forall_impl; [|exact Htr]. intros s Hs. now apply tracked_with_watch.
+        * right; right; right; right. exists k, body.
+          destruct (Hwr [EWatch (k_kind k)]) as [_ ->]. repeat split; auto.
+          right. exists ex. split; [assumption|now right].
     - (* update *)
       rewrite (update_ok_nkey _ Hur).
       repeat split; auto.
@@ -647,7 +671,7 @@ Section Proofs.
         * right; right; right; right. exists k, body.
           destruct (Hwr [EWatch (k_kind k); EUpdate k body wr]) as [_ ->]. repeat split; auto.
           -- destruct wr; try reflexivity. congruence.
-          -- right. exists ex. split; [assumption|congruence].
+          -- right. exists ex. split; [assumption|left; congruence].
   Qed.
 
   (** * The clauses of C18, per pass, for an arbitrary pre-state *)
@@ -716,6 +740,34 @@ Section Proofs.
     - destruct (s_opt s); [|reflexivity]. apply IH. intros; apply H; now right.
   Qed.
 
+  (** The Watch calls of a live pass: kinds of admissible source references, then the kind of an admissible target. *)
+  Lemma pass_watches w t w' r : w_tmpl w = Some t -> t_del t = false -> pass w = (w', r) ->
+    forall kd, In kd (watch_calls (p_evs r)) ->
+      (exists s, In s (t_sources t) /\ pfbad (t_ns t) s = false /\ kd = s_kind s) \/
+      (exists cfg k0 body orefs, pf_violation (t_ns t) k0 orefs = false /\ kd = k_kind (eff_key (t_ns t) k0)
+                                 /\ render (t_code t) cfg (w_env w) = RObj k0 body orefs).
+  Proof.
+    intros Ht Hd H kd Hin.
+    destruct (pass_cases _ _ _ _ Ht Hd H) as (w1 & e1 & w2 & e2 & t2 & rq & err & Hsp & Hout & Hfin).
+    destruct Hsp as [_ _ _ _ _ Hsev]. pose proof (src_events_watches _ _ _ Hsev) as Hsw.
+    assert (He0 : watch_calls (if t_fin t then [] else [EFinAdd]) = []) by now destruct (t_fin t).
+    assert (Hin2 : In kd (watch_calls e2)).
+    { destruct Hfin as [(_ & _ & ->)|(_ & _ & ->)]; cbn [p_evs] in Hin; rewrite !watch_calls_app, He0 in Hin; cbn in Hin;
+        rewrite ?app_nil_r in Hin; assumption. }
+    clear Hin Hfin.
+    assert (Htail : forall cfg k body tl, template_object (set_fin t true) cfg (w_env w) = TObj k body ->
+              In kd (watch_calls (e1 ++ EWatch (k_kind k) :: tl)) -> watch_calls tl = [] ->
+              (exists s, In s (t_sources t) /\ pfbad (t_ns t) s = false /\ kd = s_kind s) \/
+              (exists cfg k0 body orefs, pf_violation (t_ns t) k0 orefs = false /\ kd = k_kind (eff_key (t_ns t) k0)
+                                         /\ render (t_code t) cfg (w_env w) = RObj k0 body orefs)).
+    { intros cfg k body tl Hto Hi Htl. rewrite watch_calls_app in Hi. apply in_app_or in Hi. destruct Hi as [Hi|Hi]; [left; now apply Hsw|].
+      change (EWatch (k_kind k) :: tl) with ([EWatch (k_kind k)] ++ tl) in Hi. rewrite watch_calls_app, Htl in Hi.
+      cbn in Hi. destruct Hi as [<-|[]]. right.
+      destruct (tobj_inv _ _ _ _ _ Hto) as (k0 & orefs & Hr & Hpf & ->). exists cfg, k0, body, orefs. auto. }
+    destruct Hout; cbn [w_env with_tmpl t_ns t_sources set_fin] in *; try (left; now apply Hsw);
+      eapply Htail; eauto; destruct r0; reflexivity.
+  Qed.
+
   Section LivePass.
     Variables (w : world) (t : tmpl) (w' : world) (r : pres).
     Hypothesis Ht : w_tmpl w = Some t.
@@ -730,7 +782,7 @@ Section Proofs.
       [(Hsc & Hwr & Herr & Hrq & Htm & Hst)
       |(cfg1 & retry1 & Hsc & Hrq & Htr &
          [(Hto & Hwr & Herr & Htm & Hst) | [(Hto & Hwr & Herr & Htm & Hst) | [(Hto & Hwr & Herr & Htm & Hst)
-         | [(kk & bb & oo & Hto & Hwr & Herr & (t'' & Htm & Hinv) & Hst & Hod & Hol & Hwk & Hadm)
+         | [(kk & bb & oo & Hto & Hwr & Herr & (t'' & Htm & Hinv) & Hst & Hod & Hol & Hwk & Hadm & Hoc & Hos)
            | (kk & bb & Hto & Hwr & Herr & Htm & Hst & Hwhy)]]]])].
 
     (** output_is_render: whatever a pass writes to the target is the template rendered with the values
@@ -757,7 +809,7 @@ Section Proofs.
       { unfold Template.template_object. rewrite Hr. fold tns. rewrite Hpf. reflexivity. }
       cases_of Hcase; try (rewrite Hs in Hsc; (destruct Hsc as [?|[?|?]]; discriminate) || (injection Hsc as <- <-; congruence)).
       - rewrite Hs in Hsc. injection Hsc as <- <-. rewrite Hto' in Hto. injection Hto as <- <-. now right.
-      - left. destruct Herr as [-> | ->]; discriminate.
+      - left. destruct Herr as [-> | [-> | ->]]; discriminate.
     Qed.
 
     (** required_missing_no_write: a required source that does not exist: nothing is written, the pass
@@ -846,13 +898,11 @@ Section Proofs.
       exists s, In s (t_sources t) /\ pfbad tns s = false /\ k = nkey (src_key tns s).
     Proof. intros Hin. table. auto. Qed.
 
-    (** namespace_bound (partial): if no source names a cluster-scoped kind with the template's own
-        namespace, label patches stay inside the bounds, and a source outside the bounds stops the pass:
-        nothing written, Invalid/SourceError. *)
-    Hypothesis Hroot : forall s, In s (t_sources t) -> src_rootown tns s = false.
-
-    Lemma pfbad_is_bad s : In s (t_sources t) -> pfbad tns s = src_bad tns s.
-    Proof. intros Hin. rewrite src_bad_pf, (Hroot s Hin), orb_false_r. reflexivity. Qed.
+    (** namespace_bound, source side: label patches stay inside the bounds, and a source outside the bounds
+        (other namespace, cluster-scoped kind, unknown API) stops the pass before it is looked up: nothing
+        written, Invalid/SourceError. *)
+    Lemma pfbad_is_bad s : pfbad tns s = src_bad tns s.
+    Proof. now rewrite src_bad_pf. Qed.
 
     Theorem patches_in_bounds k : In k (label_patches (p_evs r)) -> in_bounds tns k = true.
     Proof.
@@ -869,15 +919,37 @@ Section Proofs.
       cases_of Hcase; try (exfalso; eapply Hno; eauto; fail). repeat split; auto. eexists. split; [exact Htm|reflexivity].
     Qed.
 
+    (** ... so whatever is written was collected from admissible sources only *)
+    Theorem writes_only_from_admissible_sources k d : In (k, d) (target_writes (p_evs r)) ->
+      forall s, In s (t_sources t) -> src_bad tns s = false.
+    Proof.
+      intros Hin s Hs. destruct (src_bad tns s) eqn:Eb; [|reflexivity].
+      destruct source_out_of_bounds_no_write as (Hw & _); [eauto|]. rewrite Hw in Hin. contradiction.
+    Qed.
+
+    (** namespace_bound, target side *)
     Theorem target_out_of_bounds_no_write cfg retry k0 d orefs :
-      sc = ScOk cfg retry -> render (t_code t) cfg (w_env w) = RObj k0 d orefs -> tgt_bad tns k0 orefs = true -> rootown tns k0 = false ->
+      sc = ScOk cfg retry -> render (t_code t) cfg (w_env w) = RObj k0 d orefs -> tgt_bad tns k0 orefs = true ->
       target_writes (p_evs r) = [] /\ p_err r = 0 /\ exists t', w_tmpl w' = Some t' /\ t_invalid t' = 1.
     Proof.
-      intros Hs Hr Hb Hro. table. rewrite bad_pf, Hro, orb_false_r in Hb.
+      intros Hs Hr Hb. table. rewrite bad_pf in Hb.
       assert (Hto' : template_object t cfg (w_env w) = TSrcErr).
       { unfold Template.template_object. rewrite Hr. fold tns. now rewrite Hb. }
       cases_of Hcase; try (rewrite Hs in Hsc; (destruct Hsc as [?|[?|?]]; discriminate)); rewrite Hs in Hsc; injection Hsc as <- <-; try congruence.
       repeat split; auto. eexists. split; [exact Htm|reflexivity].
+    Qed.
+
+    (** namespace_bound, cache side: a namespaced template only ever asks the cache to watch namespaced kinds *)
+    Theorem watches_in_bounds kd : tns <> 0 -> In kd (watch_calls (p_evs r)) -> is_namespaced scope_of kd = true.
+    Proof.
+      intros Hns Hin. destruct (pass_watches _ _ _ _ Ht Hd Hp kd Hin) as [(s & Hs & Hb & ->)|(cfg & k0 & body & orefs & Hpf & -> & _)].
+      - fold tns in Hb. unfold pfbad, Template.pf_violation, ns_escalation, is_namespaced in *. cbn [k_kind fst snd] in Hb.
+        apply N.eqb_neq in Hns. rewrite Hns in Hb. destruct (scope_of (s_kind s)) as [[|]|]; try reflexivity; try discriminate.
+        cbn in Hb. now rewrite orb_true_r in Hb.
+      - fold tns in Hpf |- *. change (k_kind (eff_key tns k0)) with (k_kind k0).
+        unfold Template.pf_violation, ns_escalation, is_namespaced in *.
+        apply N.eqb_neq in Hns. rewrite Hns in Hpf. destruct (scope_of (k_kind k0)) as [[|]|]; try reflexivity; try discriminate.
+        cbn [negb] in Hpf. rewrite !orb_true_r in Hpf. discriminate.
     Qed.
 
     (** tracks_sources: after a successful pass (no error, no Invalid) the template is in the cache's
@@ -887,15 +959,7 @@ Section Proofs.
     Proof.
       intros He (tx & Htx & Hix). table.
       cases_of Hcase; try (rewrite Htm in Htx; injection Htx as <-; cbn in Hix; discriminate); try assumption;
-        try (rewrite Herr in He; discriminate); try (destruct Herr as [E|E]; rewrite E in He; discriminate).
-    Qed.
-
-    Lemma not_rootown_written k0 : admitted (eff_key tns k0) -> rootown tns k0 = false.
-    Proof.
-      unfold admitted, Template.rootown, is_cluster. intros Ha. change (k_kind (eff_key tns k0)) with (k_kind k0) in Ha.
-      destruct (scope_of (k_kind k0)) as [[|]|]; try (now rewrite andb_false_r). specialize (Ha eq_refl).
-      destruct (tns =? 0) eqn:E0; [reflexivity|]. unfold eff_key, k_ns in Ha. cbn in Ha. rewrite E0 in Ha.
-      apply N.eqb_neq in E0. contradiction.
+        try (rewrite Herr in He; discriminate); try (destruct Herr as [E|[E|E]]; rewrite E in He; discriminate).
     Qed.
 
     (** quiescent (per pass): after a successful pass the stored target is the template rendered with the
@@ -907,7 +971,7 @@ Section Proofs.
     Proof.
       intros He (tx & Htx & Hix) Hself. table.
       cases_of Hcase; try (rewrite Htm in Htx; injection Htx as <-; cbn in Hix; discriminate);
-        try (rewrite Herr in He; discriminate); try (destruct Herr as [E|E]; rewrite E in He; discriminate).
+        try (rewrite Herr in He; discriminate); try (destruct Herr as [E|[E|E]]; rewrite E in He; discriminate).
       destruct Hspec as (Ens & Esrc & Ecode & _).
       destruct (tobj_inv _ _ _ _ _ Hto) as (k0 & orefs & Hr & Hpf & Ekk). fold tns in Hpf, Ekk.
       exists t', kk, bb, oo. split; [assumption|]. split; [|split; [|auto]].
@@ -915,10 +979,54 @@ Section Proofs.
         rewrite <- (scan_ext (pfbad tns) (src_bad tns)) by (intros; now apply pfbad_is_bad).
         rewrite scan_upsert_other by (intros s Hs; apply (Hself kk bb); [rewrite Hwr; now left|assumption]).
         rewrite <- (scan_store_le _ _ _ _ _ Hle). fold sc. rewrite Hsc, Hr.
-        rewrite bad_pf, Hpf. cbn [orb]. rewrite Ekk in Hadm. rewrite (not_rootown_written _ Hadm). now rewrite Ekk.
+        rewrite bad_pf, Hpf. now rewrite Ekk.
       - rewrite Hst. apply lookup_upsert_same.
     Qed.
   End LivePass.
+
+  Lemma oob_not_in_bounds tns s : oob tns (s_kind s, s_ns s, s_name s) = true -> in_bounds tns (nkey (src_key tns s)) = false.
+  Proof.
+    unfold Template.oob, Template.in_bounds, is_namespaced. cbn [k_kind k_ns fst snd]. rewrite nkey_kind.
+    change (k_kind (src_key tns s)) with (s_kind s). intros H. apply andb_true_iff in H. destruct H as [H0 H].
+    apply negb_true_iff in H0. rewrite H0.
+    destruct (scope_of (s_kind s)) as [[|]|] eqn:Es; try reflexivity. cbn in H. rewrite orb_false_r in H. apply negb_true_iff in H.
+    apply orb_false_iff in H. destruct H as [H1 H2]. cbn.
+    unfold Template.nkey, src_key. cbn [k_kind fst snd]. rewrite Es. unfold k_ns. cbn [fst snd]. now rewrite H1.
+  Qed.
+
+  (** ** namespace_bound, in full: a namespaced ObjectTemplate never label-patches, never has the cache watch
+      and never copies values from a source that is cluster-scoped or in another namespace; never writes a
+      target that is cluster-scoped or in another namespace; and reports either through Invalid/SourceError
+      without returning an error. *)
+  Theorem namespace_bound w t w' r : w_tmpl w = Some t -> t_del t = false -> pass w = (w', r) -> t_ns t <> 0 ->
+    let tns := t_ns t in
+    (forall k, In k (label_patches (p_evs r)) -> in_bounds tns k = true) /\
+    (forall kd, In kd (watch_calls (p_evs r)) -> is_namespaced scope_of kd = true) /\
+    (forall k d, In (k, d) (target_writes (p_evs r)) ->
+       in_bounds tns k = true /\ forall s, In s (t_sources t) -> oob tns (s_kind s, s_ns s, s_name s) = false) /\
+    ((exists s, In s (t_sources t) /\ oob tns (s_kind s, s_ns s, s_name s) = true) ->
+       target_writes (p_evs r) = [] /\ p_err r = 0 /\ (exists t', w_tmpl w' = Some t' /\ t_invalid t' = 1) /\
+       forall s, In s (t_sources t) -> oob tns (s_kind s, s_ns s, s_name s) = true ->
+                 ~ In (nkey (src_key tns s)) (label_patches (p_evs r))) /\
+    (forall cfg retry k0 d orefs,
+       scan (pfbad tns) (w_store w) tns (t_sources t) [] false = ScOk cfg retry ->
+       render (t_code t) cfg (w_env w) = RObj k0 d orefs -> oob tns k0 = true ->
+       target_writes (p_evs r) = [] /\ p_err r = 0 /\ exists t', w_tmpl w' = Some t' /\ t_invalid t' = 1).
+  Proof.
+    intros Ht Hd Hp Hns tns. split; [|split; [|split; [|split]]].
+    - intros k. now apply (patches_in_bounds _ _ _ _ Ht Hd Hp).
+    - intros kd. now apply (watches_in_bounds _ _ _ _ Ht Hd Hp).
+    - intros k d Hin. split; [now apply (writes_in_bounds _ _ _ _ Ht Hd Hp k d)|].
+      intros s Hs. pose proof (writes_only_from_admissible_sources _ _ _ _ Ht Hd Hp k d Hin s Hs) as Hb.
+      unfold Template.src_bad in Hb. now apply orb_false_iff in Hb.
+    - intros (s0 & Hs0 & Ho0).
+      destruct (source_out_of_bounds_no_write _ _ _ _ Ht Hd Hp) as (Hw & He & Hi).
+      { exists s0. split; [assumption|]. unfold Template.src_bad. fold tns. now rewrite Ho0. }
+      repeat split; auto. intros s Hs Ho Hin.
+      pose proof (patches_in_bounds _ _ _ _ Ht Hd Hp _ Hin) as Hb. fold tns in Hb. rewrite (oob_not_in_bounds _ _ Ho) in Hb. discriminate.
+    - intros cfg retry k0 d orefs Hs Hr Ho. apply (target_out_of_bounds_no_write _ _ _ _ Ht Hd Hp _ _ _ _ _ Hs Hr).
+      unfold Template.tgt_bad. fold tns. rewrite Ho. now rewrite orb_true_r.
+  Qed.
 
   (** ** Deleting pass *)
   Theorem delete_frees w t w' r : w_tmpl w = Some t -> t_del t = true -> pass w = (w', r) ->
@@ -981,15 +1089,14 @@ Section Proofs.
   Theorem quiescent_equals_render w0 ss t :
     let wp := final w0 ss in let w := final w0 (ss ++ [@SPass code]) in let r := snd (pass wp) in
     w_tmpl wp = Some t -> t_del t = false ->
-    (forall s, In s (t_sources t) -> src_rootown (t_ns t) s = false) ->
     p_err r = 0 -> (exists t', w_tmpl w = Some t' /\ t_invalid t' = 0) ->
     (forall k d, In (k, d) (target_writes (p_evs r)) -> forall s, In s (t_sources t) -> nkey (src_key (t_ns t) s) <> k) ->
     exists t' k d o, w_tmpl w = Some t' /\ expected t' (w_store w) (w_env w) = Some (k, d) /\
                      lookup k (w_store w) = Some o /\ o_data o = d /\ o_label o = true.
   Proof.
-    intros wp w r Ht Hd Hroot He Hinv Hself. subst w. rewrite final_snoc_pass in *. fold wp in Hinv |- *.
+    intros wp w r Ht Hd He Hinv Hself. subst w. rewrite final_snoc_pass in *. fold wp in Hinv |- *.
     destruct (pass wp) as [w' r'] eqn:Ep. cbn [fst snd] in *. subst r.
-    destruct (success_equals_render _ _ _ _ Ht Hd Ep Hroot He Hinv Hself) as (t' & k & d & o & H1 & H2 & H3 & H4 & H5 & _).
+    destruct (success_equals_render _ _ _ _ Ht Hd Ep He Hinv Hself) as (t' & k & d & o & H1 & H2 & H3 & H4 & H5 & _).
     exists t', k, d, o. auto.
   Qed.
 
@@ -997,44 +1104,47 @@ Section Proofs.
       controller's own writes) keep it so, as long as sources, environment and template stay as they are. *)
   Definition settled (w : world) : Prop :=
     exists t k d o,
-      w_tmpl w = Some t /\ t_del t = false /\ (forall s, In s (t_sources t) -> src_rootown (t_ns t) s = false) /\
+      w_tmpl w = Some t /\ t_del t = false /\
       expected t (w_store w) (w_env w) = Some (k, d) /\ (forall s, In s (t_sources t) -> nkey (src_key (t_ns t) s) <> k) /\
-      lookup k (w_store w) = Some o /\ o_data o = d /\ o_label o = true /\ admitted k.
+      lookup k (w_store w) = Some o /\ o_data o = d /\ o_label o = true /\ admitted k /\
+      o_conds o = [].             (* no (possibly malformed) status conditions on the target: true after every write of the controller *)
 
   Lemma update_res_admitted k : admitted k -> update_res k = WOk.
   Proof.
     unfold admitted, Template.update_res. destruct (scope_of (k_kind k)) as [[|]|]; auto. intros H. rewrite (H eq_refl). reflexivity.
   Qed.
 
+  Lemma copy_conds_nil (t : tmpl) o : o_conds o = [] -> copy_conds t o = Some (t_conds t).
+  Proof. intros H. unfold copy_conds. rewrite H. destruct (match o_sobs o with Some g => negb (g =? t_gen t) | None => false end); reflexivity. Qed.
+
   Theorem settled_pass w w' r : settled w -> pass w = (w', r) ->
     settled w' /\ p_err r = 0 /\ (exists t', w_tmpl w' = Some t' /\ t_invalid t' = 0) /\
     exists t k d, w_tmpl w = Some t /\ expected t (w_store w) (w_env w) = Some (k, d) /\
                   expected t (w_store w') (w_env w') = Some (k, d) /\ target_writes (p_evs r) = [(k, d)].
   Proof.
-    intros (t & k & d & o & Ht & Hd & Hroot & Hex & Hself & Hlk & Hod & Hol & Hadm) Hp.
+    intros (t & k & d & o & Ht & Hd & Hex & Hself & Hlk & Hod & Hol & Hadm & Hoc) Hp.
     destruct (pass_table _ _ _ _ Ht Hd Hp) as (st1 & Hle & Hmw & Hoth & Henv & Hpatch & (t' & Ht' & Hspec) & Hcase).
     set (tns := t_ns t) in *.
-    assert (Hpb : forall s, In s (t_sources t) -> pfbad tns s = src_bad tns s).
-    { intros s Hin. rewrite src_bad_pf, (Hroot s Hin), orb_false_r. reflexivity. }
+    assert (Hpb : forall s, In s (t_sources t) -> pfbad tns s = src_bad tns s) by (intros; now rewrite src_bad_pf).
     unfold Template.expected in Hex. fold tns in Hex.
     rewrite <- (scan_ext (pfbad tns) (src_bad tns)) in Hex by assumption.
     destruct (scan (pfbad tns) (w_store w) tns (t_sources t) [] false) as [| | |cfg rt] eqn:Esc; try discriminate.
     destruct (render (t_code t) cfg (w_env w)) as [| |k0 body orefs] eqn:Er; try discriminate.
     destruct (tgt_bad tns k0 orefs) eqn:Eb; [discriminate|]. injection Hex as <- <-.
-    rewrite bad_pf in Eb. apply orb_false_iff in Eb. destruct Eb as [Hpf Hro].
+    rewrite bad_pf in Eb. rename Eb into Hpf.
     assert (Hto : template_object t cfg (w_env w) = TObj (eff_key tns k0) body).
     { unfold Template.template_object. rewrite Er. fold tns. now rewrite Hpf. }
-    assert (Hlk1 : exists y, lookup (eff_key tns k0) st1 = Some y /\ o_label y = true).
+    assert (Hlk1 : exists y, lookup (eff_key tns k0) st1 = Some y /\ o_label y = true /\ o_conds y = []).
     { specialize (Hle (eff_key tns k0)). rewrite Hlk in Hle. destruct (lookup (eff_key tns k0) st1) as [y|]; [|contradiction].
-      exists y. split; [reflexivity|]. destruct Hle as [_ Hl]. auto. }
-    destruct Hlk1 as (y & Hy & Hyl).
+      exists y. split; [reflexivity|]. destruct Hle as (_ & Hc & Hl). split; [auto|congruence]. }
+    destruct Hlk1 as (y & Hy & Hyl & Hyc).
     assert (Hcg : cache_get st1 (eff_key tns k0) = Some y).
     { unfold Template.cache_get. rewrite (admitted_nkey _ Hadm), Hy, Hyl. reflexivity. }
     destruct Hcase as
       [(Hsc & _)
       |(cfg1 & retry1 & Hsc & Hrq & Htr &
          [(Hto1 & _) | [(Hto1 & _) | [(Hto1 & _)
-         | [(kk & bb & oo & Hto1 & Hwr & Herr & (t'' & Htm & Hinv) & Hst & Hod1 & Hol1 & Hwk & Hadm1)
+         | [(kk & bb & oo & Hto1 & Hwr & Herr & (t'' & Htm & Hinv) & Hst & Hod1 & Hol1 & Hwk & Hadm1 & Hoc1 & Hos1)
            | (kk & bb & Hto1 & Hwr & Herr & Htm & Hst & Hwhy)]]]])];
       try (destruct Hsc as [?|[?|?]]; discriminate); injection Hsc as <- <-; try congruence.
     - (* written *)
@@ -1043,41 +1153,44 @@ Section Proofs.
       { unfold Template.expected. rewrite Henv, Hst. fold tns.
         rewrite <- (scan_ext (pfbad tns) (src_bad tns)) by assumption.
         rewrite scan_upsert_other by assumption. rewrite <- (scan_store_le _ _ _ _ _ Hle), Esc, Er.
-        rewrite bad_pf, Hpf, Hro. reflexivity. }
+        rewrite bad_pf, Hpf. reflexivity. }
       destruct Hspec as (Ens & Esrc & Ecode & Egen & Edel & Efin).
       split; [|split; [assumption|split; [eauto|]]].
       + exists t', (eff_key tns k0), body, oo. rewrite <- Ens, <- Esrc. fold tns.
-        split; [assumption|]. split; [congruence|]. split; [assumption|]. split.
+        split; [assumption|]. split; [congruence|]. split.
         { unfold Template.expected in *. rewrite <- Ens, <- Esrc, <- Ecode. exact Hex'. }
         split; [assumption|]. split; [rewrite Hst; apply lookup_upsert_same|]. auto.
       + exists t, (eff_key tns k0), body. repeat split; auto.
         unfold Template.expected. fold tns. rewrite <- (scan_ext (pfbad tns) (src_bad tns)) by assumption.
-        rewrite Esc, Er, bad_pf, Hpf, Hro. reflexivity.
-    - (* a failed write is impossible: the target is in the cache and an update of it is admitted *)
+        rewrite Esc, Er, bad_pf, Hpf. reflexivity.
+    - (* a failed write is impossible: the target is in the cache, carries no conditions, and an update of it is admitted *)
       exfalso. rewrite Hto in Hto1. injection Hto1 as <- <-.
-      destruct Hwhy as [(Hn & _)|(ex & _ & Hne)]; [congruence|]. apply Hne. now apply update_res_admitted.
+      destruct Hwhy as [(Hn & _)|(ex & Hex2 & [Hne|Hcc])]; [congruence| |].
+      + apply Hne. now apply update_res_admitted.
+      + rewrite Hcg in Hex2. injection Hex2 as <-. rewrite (copy_conds_nil _ _ Hyc) in Hcc. discriminate.
   Qed.
 
   (** A successful pass establishes [settled]. *)
   Theorem success_settles w t w' r : w_tmpl w = Some t -> t_del t = false -> pass w = (w', r) ->
-    (forall s, In s (t_sources t) -> src_rootown (t_ns t) s = false) ->
     p_err r = 0 -> (exists t', w_tmpl w' = Some t' /\ t_invalid t' = 0) ->
     (forall k d, In (k, d) (target_writes (p_evs r)) -> forall s, In s (t_sources t) -> nkey (src_key (t_ns t) s) <> k) ->
     settled w'.
   Proof.
-    intros Ht Hd Hp Hroot He Hinv Hself.
-    destruct (success_equals_render _ _ _ _ Ht Hd Hp Hroot He Hinv Hself) as (t' & k & d & o & H1 & H2 & H3 & H4 & H5 & H6).
+    intros Ht Hd Hp He Hinv Hself.
+    destruct (success_equals_render _ _ _ _ Ht Hd Hp He Hinv Hself) as (t' & k & d & o & H1 & H2 & H3 & H4 & H5 & H6).
     destruct (pass_table _ _ _ _ Ht Hd Hp) as (st1 & _ & _ & _ & _ & _ & (t2 & Ht2 & Hspec) & Hcase).
     rewrite H1 in Ht2. injection Ht2 as <-. destruct Hspec as (Ens & Esrc & Ecode & Egen & Edel & Efin).
-    exists t', k, d, o. rewrite <- Ens, <- Esrc. repeat split; auto; try congruence.
-    - intros s Hs. apply (Hself k d); [rewrite H6; now left|assumption].
-    - destruct Hcase as
+    assert (Hfacts : admitted k /\ o_conds o = []).
+    { destruct Hcase as
         [(_ & Hwr & _)
         |(cfg1 & retry1 & _ & _ & _ &
            [(_ & Hwr & _) | [(_ & Hwr & _) | [(_ & Hwr & _)
-           | [(kk & bb & oo & _ & Hwr & _ & _ & _ & _ & _ & _ & Hadm1)
+           | [(kk & bb & oo & _ & Hwr & _ & _ & Hst & _ & _ & _ & Hadm1 & Hoc1 & _)
              | (kk & bb & _ & Hwr & _)]]]])]; rewrite H6 in Hwr; try discriminate.
-      injection Hwr as <- <-. assumption.
+      injection Hwr as <- <-. rewrite Hst, lookup_upsert_same in H3. injection H3 as <-. auto. }
+    destruct Hfacts as [Hadm Hoc].
+    exists t', k, d, o. rewrite <- Ens, <- Esrc. repeat split; auto; try congruence.
+    intros s Hs. apply (Hself k d); [rewrite H6; now left|assumption].
   Qed.
 
   (** ... hence any number of further passes leaves the target equal to the render. *)
@@ -1103,10 +1216,12 @@ Section Proofs.
   Qed.
 End Proofs.
 
-(** * The clause "a source or target outside the namespace is never read, patched or written and is
-      reported through Invalid" is REFUTED for the model (and the implementation, see checks/C18.py):
-      the namespace check returns early when the reference names the template's own namespace, before it
-      looks at the scope of the kind (namespace_escalation_protection.go:89-96). *)
+(** * History of the namespace clause. Against the namespace check as it was before aa47ee3
+      ([ns_escalation_v0]: it returned as soon as the reference named the template's own namespace, before
+      looking at the scope of the kind) the clause "a source or target outside the namespace is never
+      read, patched or written and is reported through Invalid" was REFUTED, for the model and for the
+      implementation (finding F-C18). Defect fixed by aa47ee3; with [ns_escalation] the clause is proved
+      in full above and the same witnesses are rejected. *)
 Module Witness.
   Definition scope (k : N) : option bool := if k =? 3 then Some false else Some true.   (* kind 3 is cluster-scoped *)
   Definition render_cm (_ : unit) (cfg : data) (_ : N) : rres := RObj (1, 0, 100) cfg false.
@@ -1123,11 +1238,11 @@ Module Witness.
   Definition w_tgt : world unit := {| w_store := [((1, 1, 1), cm)]; w_tmpl := Some (tm [src_cm]); w_watch := []; w_env := 0 |}.
 End Witness.
 
-Theorem namespace_bound_refuted :
+Theorem v0_namespace_bound_refuted :
   exists (w : world unit) t s,
     w_tmpl w = Some t /\ t_del t = false /\ t_ns t <> 0 /\ In s (t_sources t) /\
     oob Witness.scope (t_ns t) (s_kind s, s_ns s, s_name s) = true /\
-    let '(w', r) := pass Witness.render_cm Witness.scope 30 60 w in
+    let '(w', r) := pass Witness.render_cm Witness.scope ns_escalation_v0 30 60 w in
     label_patches (p_evs r) = [(3, 0, 1)] /\ in_bounds Witness.scope (t_ns t) (3, 0, 1) = false /\
     target_writes (p_evs r) = [((1, 1, 100), [(1, 7)])] /\
     watched 3 me (w_watch w') = true /\
@@ -1138,15 +1253,28 @@ Proof.
   eexists. split; vm_compute; reflexivity.
 Qed.
 
-Theorem namespace_bound_target_refuted :
+Theorem v0_namespace_bound_target_refuted :
   exists (w : world unit) t,
     w_tmpl w = Some t /\ t_del t = false /\ t_ns t <> 0 /\
     (forall cfg env, exists k d, Witness.render_cluster (t_code t) cfg env = RObj k d false /\ oob Witness.scope (t_ns t) k = true) /\
-    let '(w', r) := pass Witness.render_cluster Witness.scope 30 60 w in
+    let '(w', r) := pass Witness.render_cluster Witness.scope ns_escalation_v0 30 60 w in
     p_err r = 2 /\ target_writes (p_evs r) = [] /\ exists t', w_tmpl w' = Some t' /\ t_invalid t' = 0.
 Proof.
   exists Witness.w_tgt, (Witness.tm [Witness.src_cm]).
   repeat split; try (vm_compute; reflexivity || discriminate).
   - intros cfg env. exists (3, 1, 100), cfg. split; reflexivity.
   - eexists. split; vm_compute; reflexivity.
+Qed.
+
+(** The same two worlds under the check as it is now: nothing patched, nothing written, no Watch on the
+    cluster-scoped kind, Invalid/SourceError. *)
+Theorem witnesses_now_rejected :
+  (let '(w', r) := pass Witness.render_cm Witness.scope ns_escalation 30 60 Witness.w_src in
+   label_patches (p_evs r) = [] /\ target_writes (p_evs r) = [] /\ watch_calls (p_evs r) = [] /\ p_err r = 0 /\
+   exists t', w_tmpl w' = Some t' /\ t_invalid t' = 1) /\
+  (let '(w', r) := pass Witness.render_cluster Witness.scope ns_escalation 30 60 Witness.w_tgt in
+   target_writes (p_evs r) = [] /\ watch_calls (p_evs r) = [1] /\ p_err r = 0 /\
+   exists t', w_tmpl w' = Some t' /\ t_invalid t' = 1).
+Proof.
+  split; repeat split; try (vm_compute; reflexivity); eexists; split; vm_compute; reflexivity.
 Qed.
